@@ -382,7 +382,7 @@ PROPS["C16"] = {
     "lanes": [
         lane("TestRecursive", "recursive", 0, 0, norapid=True),
         lane("TestKinds", "kinds", 0, 0, norapid=True),
-        lane("TestPipeline", "pipeline", 200, 1200, shards=16, must_classes=["service", "entity", "path-parameter"]),
+        lane("TestPipeline", "pipeline", 200, 1200, shards=16, must_classes=["service", "entity", "path-parameter", "path-parameter:odd-name", "path-parameter:enum"]),
     ],
 }
 
